@@ -14,14 +14,18 @@ From the working tree:
                               statement skeleton, the discarded key(s), the class raised for unknown names
   FieldWrapper.default / set_default
                               the "was a default set" test (`self._default is not None`)
+  ArgumentParser._instantiate_dataclasses
+                              the keys popped from the constructor arguments before the constructor call: none
+                              (before the `_type_` fix) or `constructor_args.pop(DC_TYPE_KEY | "<lit>", None)`;
+                              CTOR_STRIPS_TYPE_KEY_GEN = every key set_default discards is also popped there
 
 Output: coq/Gen/FactsLayers.v (imports Model.Layers and instantiates it).  Fails closed."""
 from __future__ import annotations
 
 import ast
 
-from .pyast import (Unrecognised, clean, const, cstr, cstrs, find_class, find_def, if_chain, kw_defaults, parse,
-                    unparse)
+from .pyast import (Unrecognised, clean, const, cstr, cstrs, find_class, find_def, if_chain, kw_defaults, module_assign,
+                    parse, unparse)
 
 # ---- dict_union ------------------------------------------------------------------------------------
 
@@ -371,6 +375,49 @@ def _fw_default(fw):
     return manual
 
 
+def _ctor_strip(parsing, ser):
+    """keys popped from the constructor arguments between `constructor_args = constructor_arguments.pop(destination)`
+    and the constructor call in _instantiate_dataclasses: none (before the `_type_` fix) or literal / DC_TYPE_KEY pops."""
+    fn = find_def(parsing, "_instantiate_dataclasses", cls="ArgumentParser")
+    homes = []
+    for node in ast.walk(fn):
+        body = getattr(node, "body", None)
+        if isinstance(body, list):
+            for i, st in enumerate(body):
+                if isinstance(st, ast.Assign) and unparse(st) == "constructor_args = constructor_arguments.pop(destination)":
+                    homes.append((body, i))
+    if len(homes) != 1:
+        raise Unrecognised("_instantiate_dataclasses: `constructor_args = constructor_arguments.pop(destination)` not found exactly once")
+    body, i = homes[0]
+    type_key = const(module_assign(ser, "DC_TYPE_KEY"), str)
+    imported = any(isinstance(n, ast.ImportFrom) and (n.module or "").endswith("helpers.serialization.serializable")
+                   and any(a.name == "DC_TYPE_KEY" and a.asname is None for a in n.names) for n in parsing.body)
+    strip = []
+    rest = clean(body[i + 1:])
+    while rest and isinstance(rest[0], ast.Expr) and isinstance(rest[0].value, ast.Call) \
+            and unparse(rest[0].value.func) == "constructor_args.pop":
+        call = rest[0].value
+        if len(call.args) != 2 or call.keywords or unparse(call.args[1]) != "None":
+            raise Unrecognised("_instantiate_dataclasses: " + unparse(call)[:100])
+        k = call.args[0]
+        if isinstance(k, ast.Name) and k.id == "DC_TYPE_KEY" and imported:
+            strip.append(type_key)
+        elif isinstance(k, ast.Constant) and isinstance(k.value, str):
+            strip.append(k.value)
+        else:
+            raise Unrecognised("_instantiate_dataclasses: popped key " + unparse(k)[:80])
+        rest = rest[1:]
+    # nothing else may edit the constructor arguments before they are used
+    for st in rest:
+        t = unparse(st)
+        if "constructor_args.pop" in t or "del constructor_args" in t or "constructor_args.clear" in t \
+                or "constructor_args = " in t or "constructor_args.update" in t or "constructor_args[" in t.split("=")[0]:
+            raise Unrecognised("_instantiate_dataclasses: constructor_args edited at an unknown place: " + t[:120])
+    if "_create_dataclass_instance(dc_wrapper, constructor, constructor_args)" not in unparse(ast.Module(body=rest, type_ignores=[])):
+        raise Unrecognised("_instantiate_dataclasses: constructor call")
+    return strip
+
+
 def emit(repo: str) -> str:
     utils = parse(repo, "simple_parsing/utils.py")
     parsing = parse(repo, "simple_parsing/parsing.py")
@@ -383,6 +430,8 @@ def emit(repo: str) -> str:
     ap_nm, parse_nm = _defaults(parsing)
     discard, unknown_err = _dc_set_default(dcw)
     manual = _fw_default(fw)
+    ser = parse(repo, "simple_parsing/helpers/serialization/serializable.py")
+    strip = _ctor_strip(parsing, ser)
     b = lambda x: "true" if x else "false"  # noqa: E731
     return (
         "From SPV Require Import Base.Str Model.Layers.\nOpen Scope string_scope.\n"
@@ -403,6 +452,9 @@ def emit(repo: str) -> str:
         f"Definition DISCARD_GEN : list string := {cstrs(discard)}.\n"
         f"Definition UNKNOWN_ERR_GEN : string := {cstr(unknown_err)}.\n"
         f"Definition manual_set_gen (d : ptree) : bool := {manual}.\n"
+        "(* ArgumentParser._instantiate_dataclasses: keys popped from the constructor arguments *)\n"
+        f"Definition CTOR_STRIP_GEN : list string := {cstrs(strip)}.\n"
+        f"Definition CTOR_STRIPS_TYPE_KEY_GEN : bool := {b(all(k in strip for k in discard))}.\n"
         "(* the model instantiated with the regenerated facts *)\n"
         "Definition du_decide_gen := du_decide du_step_gen du_final_gen DU_RECURSE_DEFAULT.\n"
         "Definition dict_union_gen := du du_step_gen du_final_gen DU_RECURSE_DEFAULT.\n"
@@ -417,5 +469,6 @@ def emit(repo: str) -> str:
         "Definition rooted_gen := rooted reroot_gen.\n"
         "Definition set_defaults_file_gen := set_defaults_file DISCARD_GEN UNKNOWN_ERR_GEN dict_union_gen reroot_gen.\n"
         "Definition run_phase_gen := run_phase DISCARD_GEN UNKNOWN_ERR_GEN dict_union_gen reroot_gen CLI_DEFAULT_IS_CTOR_GEN.\n"
-        "Definition run_gen := run manual_set_gen DISCARD_GEN UNKNOWN_ERR_GEN dict_union_gen reroot_gen LAYER_ORDER_GEN CLI_DEFAULT_IS_CTOR_GEN.\n"
+        "Definition run_gen := run manual_set_gen DISCARD_GEN UNKNOWN_ERR_GEN dict_union_gen reroot_gen LAYER_ORDER_GEN CLI_DEFAULT_IS_CTOR_GEN CTOR_STRIP_GEN.\n"
+        "Definition extra_kwargs_gen := extra_kwargs CTOR_STRIP_GEN.\n"
     )
